@@ -19,7 +19,7 @@ import (
 // second call is reachable only after a test that they differ.
 func c01Fanout(c *core.Check) {
 	p := c.Prog
-	r := c.Rule("R12", "no function visits the same subtree twice per level: for every pair of direct self-recursive calls that one activation can both execute, the two subjects (receiver or first argument) are different fields of one value, elements i and i+k of one list, or the second call is reachable only after a test that they differ — otherwise the time is exponential in the depth of the tree", 4)
+	r := c.Rule("R12", "no function visits the same subtree twice per level: for every pair of direct self-recursive calls that one activation can both execute, the two subjects (receiver or first argument) are different fields of one value, elements i and i+k of one list, or the second call is reachable only after a test that they differ — otherwise the time is exponential in the depth of the tree", 2)
 	g := p.VTA()
 	type pair struct {
 		fn   *ssa.Function
